@@ -14,8 +14,16 @@
      (the subtree itself, with an empty-string text in front of children
      identified with no text, which lxml prints identically).  ASSUMPTION:
      lxml's serialisation is injective on such subtrees (attribute order as
-     stored).  Documents do not use namespaces / the diff namespace; comments
-     and processing instructions are not modelled.
+     stored).  Documents do not use namespaces / the diff namespace.
+   * Comments and processing instructions are read as childless nodes with
+     reserved tag names ("#comment", "#pi:<target>", [text] = content, [tail]
+     = tail).  The code handles them exactly like a non-formatting child
+     (`element.tag` of such a node is a function, never a member of
+     formatting_tags; xpath("//t") never selects them): one T_SINGLE
+     placeholder keyed by tounicode of the node.  No definition needs a case
+     for them PROVIDED the reserved names never occur in text_tags /
+     formatting_tags.  mark_diff on the placeholder of such a node is not
+     modelled (lxml silently ignores attribute assignment on them).
    * [placeholder2tag] holds *live element objects* that do_element mutates
      later.  The model stores in the table the value the object has when the
      enclosing [do_tree] call returns:
